@@ -193,7 +193,7 @@ func magnetMain(rc *RunCtx) {
 					Name: fmt.Sprintf("hostile%d-%d", i, r), Fast: st.Bool(1, 2), Ext: true, MetadataSize: lie,
 					Have: func(int) bool { return true }, Advertise: 3, Reqq: -1, UnchokeAfter: -1, NoMonitor: true,
 				}
-				mode := st.Choice(8)
+				mode := st.Choice(9)
 				var p *RefPeer
 				cfg.OnMessage = func(_ *RefPeer, m refwire.Message) bool {
 					e, ok := m.(refwire.Extended)
@@ -214,6 +214,7 @@ func magnetMain(rc *RunCtx) {
 						reply.Data = bytes.Clone(info[lo:min(lo+16384, tl)])
 					}
 					simrt.Fault(fmt.Sprintf("hostile-metadata-mode-%d", mode))
+					var trailer *refwire.MetadataMsg
 					switch mode {
 					case 0: // corrupt contents
 						if len(reply.Data) > 0 {
@@ -244,8 +245,19 @@ func magnetMain(rc *RunCtx) {
 						if len(reply.Data) > 0 {
 							reply.Data[len(reply.Data)-1] ^= 1
 						}
+					case 8: // a corrupt block, and right behind it a block that states no (or another) total size
+						if len(reply.Data) > 0 {
+							reply.Data[st.Choice(len(reply.Data))] ^= 0x22
+						}
+						trailer = &refwire.MetadataMsg{Type: refwire.MetadataData, Piece: int64(st.Choice(nb + 1)), Data: drawBytes(st, simrt.Pick(st, 16384, 1, int(tl%16384)))}
+						if st.Bool(1, 2) {
+							trailer.HasTotalSize, trailer.TotalSize = true, simrt.Pick(st, int64(0), tl, tl-1)
+						}
 					}
 					p.Send(refwire.Extended{SubID: uint8(id), Payload: refwire.EncodeMetadata(reply)})
+					if trailer != nil {
+						p.Send(refwire.Extended{SubID: uint8(id), Payload: refwire.EncodeMetadata(*trailer)})
+					}
 					return true
 				}
 				p = w.NewPeer(spec, cfg)
